@@ -76,6 +76,14 @@ fn open_tmp(dir: &str, name: &str) -> File {
 /// and differs from case to case)
 pub fn repoint_std(dir: &str, tag: usize) -> Vec<(String, String)> {
     let mut ids = vec![];
+    // a previous case may have closed some of 0-2: fill them first, so that the files opened below land above 2
+    loop {
+        let fd = unsafe { libc::open(b"/dev/null\0".as_ptr() as *const libc::c_char, libc::O_RDWR) };
+        if fd > 2 || fd < 0 {
+            unsafe { libc::syscall(libc::SYS_close, fd as libc::c_long) };
+            break;
+        }
+    }
     for fd in 0..3 {
         let f = open_tmp(dir, &format!("std{}_{}", fd, tag % 2));
         unsafe {
@@ -281,6 +289,21 @@ fn run_case(idx: usize, line: &str, dir: &str, out: &mut Out) {
         }
     }
     let (argv, cfg) = build_config(&spec, &mut obj);
+    // viaclone=1: the configuration that is launched is a `try_clone()` of the one that was built (what `Exec::clone`
+    // and every caller that keeps a template do); the original stays alive until the end of the case
+    let (cfg, _cfg_original) = if spec.get("viaclone") == "1" {
+        let c = cfg.try_clone().expect("try_clone");
+        (c, Some(cfg))
+    } else {
+        (cfg, None)
+    };
+    // closed=<digits>: the caller runs daemon-style with some of its standard descriptors closed, so the pipes the library
+    // creates land on descriptors 0-2 (they are re-pointed at the start of the next case)
+    for ch in spec.get("closed").chars() {
+        if let Some(d) = ch.to_digit(3) {
+            unsafe { libc::syscall(libc::SYS_close, d as libc::c_long) };
+        }
+    }
     // descriptors the caller keeps (Rc files) are part of the "before" table; owned Files are passed in
     let before = fd_table();
     let mask = u64::from_str_radix(spec.get("mask").trim_start_matches('-'), 16).unwrap_or(0);
